@@ -18,10 +18,10 @@ impl From<anyhow::Error> for StorageError { fn from(e: anyhow::Error) -> Self { 
 #[derive(Debug, PartialEq, Eq)] pub enum StorageReadError { KeyNotFound, OutOfBounds }
 /// value bytes: at most 3, Arc<[u8]>-like surface (len / as_ref / clone / From<&[u8]>)
 #[derive(Clone, Copy, Debug, PartialEq, Eq)]
-pub struct Value { pub b: [u8; 3], pub n: usize }
-impl Value { pub fn len(&self) -> usize { self.n } }
-impl AsRef<[u8]> for Value { fn as_ref(&self) -> &[u8] { &self.b[..self.n] } }
-impl From<&[u8]> for Value { fn from(s: &[u8]) -> Self { let mut b = [0u8; 3]; let n = if s.len() < 3 { s.len() } else { 3 }; let mut i = 0; while i < 3 { if i < n { b[i] = s[i]; } i += 1; } Value { b, n } } }
+pub struct Value { pub b: [u8; 3], pub n8: u8 }
+impl Value { pub fn len(&self) -> usize { self.n8 as usize } }
+impl AsRef<[u8]> for Value { fn as_ref(&self) -> &[u8] { &self.b[..self.n8 as usize] } }
+impl From<&[u8]> for Value { fn from(s: &[u8]) -> Self { let mut b = [0u8; 3]; let n = if s.len() < 3 { s.len() } else { 3 }; let mut i = 0; while i < 3 { if i < n { b[i] = s[i]; } i += 1; } Value { b, n8: n as u8 } } }
 #[derive(Clone, Copy, Debug, PartialEq, Eq, PartialOrd, Ord)]
 pub struct ReferenceBytesKey(pub u8);
 impl From<Vec<u8>> for ReferenceBytesKey { fn from(v: Vec<u8>) -> Self { ReferenceBytesKey(v[0]) } }
@@ -111,7 +111,7 @@ impl Base { fn look(&self, key: &[u8], column: Col) -> Option<Value> { self.read
 impl KeyValueInspect for Base {
     type Column = Col;
     fn exists(&self, key: &[u8], column: Col) -> StorageResult<bool> { Ok(self.look(key, column).is_some()) }
-    fn size_of_value(&self, key: &[u8], column: Col) -> StorageResult<Option<usize>> { Ok(self.look(key, column).map(|v| v.n)) }
+    fn size_of_value(&self, key: &[u8], column: Col) -> StorageResult<Option<usize>> { Ok(self.look(key, column).map(|v| v.len())) }
     fn get(&self, key: &[u8], column: Col) -> StorageResult<Option<Value>> { Ok(self.look(key, column)) }
     fn read_exact(&self, key: &[u8], column: Col, offset: usize, buf: &mut [u8]) -> StorageResult<Result<usize, StorageReadError>> { Ok(Err(StorageReadError::KeyNotFound)) }
     fn read_zerofill(&self, key: &[u8], column: Col, offset: usize, buf: &mut [u8]) -> StorageResult<Result<usize, StorageReadError>> { Ok(Err(StorageReadError::KeyNotFound)) }
@@ -120,7 +120,7 @@ impl KeyValueInspect for Base {
 // =====================================================================================================================
 #[cfg(kani)] fn fmt_stub(_a: core::fmt::Arguments<'_>) -> String { String::new() }
 #[cfg(kani)]
-fn any_value() -> Value { let n: usize = kani::any(); kani::assume(n <= 3); let b: [u8; 3] = kani::any(); let mut v = Value { b, n }; let mut i = 0; while i < 3 { if i >= n { v.b[i] = 0; } i += 1; } v }
+fn any_value() -> Value { let n: usize = kani::any(); kani::assume(n <= 3); let b: [u8; 3] = kani::any(); let mut v = Value { b, n8: n as u8 }; let mut i = 0; while i < 3 { if i >= n { v.b[i] = 0; } i += 1; } v }
 #[cfg(kani)]
 fn any_op() -> Option<WriteOperation> { let k: u8 = kani::any(); kani::assume(k <= 2); match k { 0 => None, 1 => Some(WriteOperation::Remove), _ => Some(WriteOperation::Insert(any_value())) } }
 /// the abstract view of a key: what a read must answer = pending op if any, else the base
@@ -154,7 +154,7 @@ fn c10_reads() {
     kani::cover!(matches!(pa, Some(WriteOperation::Remove)) && tx.storage.va.is_some(), "[C10.storage-tx.read.cover-pending-removal-hides-stored-value]");
     kani::assert(tx.get(&key, Col(col)).unwrap() == want, "[C10.storage-tx.read.get-returns-pending-write-or-removal-else-underlying]");
     kani::assert(tx.exists(&key, Col(col)).unwrap() == want.is_some(), "[C10.storage-tx.read.exists-agrees-with-get]");
-    kani::assert(tx.size_of_value(&key, Col(col)).unwrap() == want.map(|v| v.n), "[C10.storage-tx.read.size-agrees-with-get]");
+    kani::assert(tx.size_of_value(&key, Col(col)).unwrap() == want.map(|v| v.len()), "[C10.storage-tx.read.size-agrees-with-get]");
     // a pending operation is answered without asking the underlying storage
     let r0 = tx.storage.reads.get();
     let _ = tx.get(&key, Col(col));
@@ -164,13 +164,13 @@ fn c10_reads() {
         let off: usize = kani::any(); kani::assume(off <= 4);
         let mut buf = [0xAAu8; 2];
         let r = tx.read_exact(&key, Col(col), off, &mut buf).unwrap();
-        if off + 2 <= v.n { kani::assert(r == Ok(2) && buf[0] == v.b[off] && buf[1] == v.b[off + 1], "[C10.storage-tx.read.read-exact-copies-the-requested-window]"); }
+        if off + 2 <= v.len() { kani::assert(r == Ok(2) && buf[0] == v.b[off] && buf[1] == v.b[off + 1], "[C10.storage-tx.read.read-exact-copies-the-requested-window]"); }
         else { kani::assert(r == Err(StorageReadError::OutOfBounds) && buf == [0xAA; 2], "[C10.storage-tx.read.read-exact-out-of-bounds-leaves-buffer]"); }
         let mut buf2 = [0xAAu8; 2];
         let r2 = tx.read_zerofill(&key, Col(col), off, &mut buf2).unwrap();
-        if off <= v.n {
-            let e0 = if off < v.n { v.b[off] } else { 0 }; let e1 = if off + 1 < v.n { v.b[off + 1] } else { 0 };
-            kani::assert(r2 == Ok(v.n) && buf2 == [e0, e1], "[C10.storage-tx.read.read-zerofill-copies-what-exists-and-zero-fills-the-rest]");
+        if off <= v.len() {
+            let e0 = if off < v.len() { v.b[off] } else { 0 }; let e1 = if off + 1 < v.len() { v.b[off + 1] } else { 0 };
+            kani::assert(r2 == Ok(v.len()) && buf2 == [e0, e1], "[C10.storage-tx.read.read-zerofill-copies-what-exists-and-zero-fills-the-rest]");
         } else { kani::assert(r2 == Err(StorageReadError::OutOfBounds), "[C10.storage-tx.read.read-zerofill-offset-past-the-end-is-out-of-bounds]"); }
     }
     if let Some(WriteOperation::Remove) = pa {
@@ -192,7 +192,7 @@ fn writes_case(op: u8) {
     let ret: Option<Option<Value>> = match op {
         0 => { tx.put(&key, Col(col), v).unwrap(); None }
         1 => Some(tx.replace(&key, Col(col), v).unwrap()),
-        2 => { let n = tx.write(&key, Col(col), v.as_ref()).unwrap(); kani::assert(n == v.n, "[C10.storage-tx.write.write-reports-the-bytes-written]"); None }
+        2 => { let n = tx.write(&key, Col(col), v.as_ref()).unwrap(); kani::assert(n == v.len(), "[C10.storage-tx.write.write-reports-the-bytes-written]"); None }
         3 => Some(tx.take(&key, Col(col)).unwrap()),
         _ => { tx.delete(&key, Col(col)).unwrap(); None }
     };
@@ -246,25 +246,25 @@ fn commit_case(fail_policy: bool, child_writes_a: bool, child_writes_b: bool) {
     core::mem::forget(r);
 }
 
-//@ harness kind=bounded tier=thorough bound="<= 2 pending keys per column, values <= 3 bytes, 1-byte keys" timeout=2400 extra="--default-unwind 5"
+//@ harness kind=bounded tier=quick bound="<= 2 pending keys per column, values <= 3 bytes, 1-byte keys" timeout=2400 extra="--default-unwind 5"
 #[cfg(kani)] #[kani::proof] #[kani::stub(alloc::fmt::format, fmt_stub)]
 fn c10_commit_overwrite_00() { commit_case(false, false, false); }
-//@ harness kind=bounded tier=thorough bound="<= 2 pending keys per column, values <= 3 bytes, 1-byte keys" timeout=2400 extra="--default-unwind 5"
+//@ harness kind=bounded tier=quick bound="<= 2 pending keys per column, values <= 3 bytes, 1-byte keys" timeout=2400 extra="--default-unwind 5"
 #[cfg(kani)] #[kani::proof] #[kani::stub(alloc::fmt::format, fmt_stub)]
 fn c10_commit_overwrite_01() { commit_case(false, false, true); }
 //@ harness kind=bounded tier=quick bound="<= 2 pending keys per column, values <= 3 bytes, 1-byte keys" timeout=2400 extra="--default-unwind 5"
 #[cfg(kani)] #[kani::proof] #[kani::stub(alloc::fmt::format, fmt_stub)]
 fn c10_commit_overwrite_10() { commit_case(false, true, false); }
-//@ harness kind=bounded tier=thorough bound="<= 2 pending keys per column, values <= 3 bytes, 1-byte keys" timeout=2400 extra="--default-unwind 5"
+//@ harness kind=bounded tier=quick bound="<= 2 pending keys per column, values <= 3 bytes, 1-byte keys" timeout=2400 extra="--default-unwind 5"
 #[cfg(kani)] #[kani::proof] #[kani::stub(alloc::fmt::format, fmt_stub)]
 fn c10_commit_overwrite_11() { commit_case(false, true, true); }
-//@ harness kind=bounded tier=thorough bound="<= 2 pending keys per column, values <= 3 bytes, 1-byte keys" timeout=2400 extra="--default-unwind 5"
+//@ harness kind=bounded tier=quick bound="<= 2 pending keys per column, values <= 3 bytes, 1-byte keys" timeout=2400 extra="--default-unwind 5"
 #[cfg(kani)] #[kani::proof] #[kani::stub(alloc::fmt::format, fmt_stub)]
 fn c10_commit_fail_00() { commit_case(true, false, false); }
-//@ harness kind=bounded tier=thorough bound="<= 2 pending keys per column, values <= 3 bytes, 1-byte keys" timeout=2400 extra="--default-unwind 5"
+//@ harness kind=bounded tier=quick bound="<= 2 pending keys per column, values <= 3 bytes, 1-byte keys" timeout=2400 extra="--default-unwind 5"
 #[cfg(kani)] #[kani::proof] #[kani::stub(alloc::fmt::format, fmt_stub)]
 fn c10_commit_fail_01() { commit_case(true, false, true); }
-//@ harness kind=bounded tier=thorough bound="<= 2 pending keys per column, values <= 3 bytes, 1-byte keys" timeout=2400 extra="--default-unwind 5"
+//@ harness kind=bounded tier=quick bound="<= 2 pending keys per column, values <= 3 bytes, 1-byte keys" timeout=2400 extra="--default-unwind 5"
 #[cfg(kani)] #[kani::proof] #[kani::stub(alloc::fmt::format, fmt_stub)]
 fn c10_commit_fail_10() { commit_case(true, true, false); }
 //@ harness kind=bounded tier=quick bound="<= 2 pending keys per column, values <= 3 bytes, 1-byte keys" timeout=2400 extra="--default-unwind 5"
